@@ -7,6 +7,7 @@ import (
 	"math/rand"
 	"strings"
 	"sync"
+	"sync/atomic"
 	"time"
 
 	"github.com/datastax/go-cassandra-native-protocol/message"
@@ -141,6 +142,8 @@ func c07History(c *Ctx, idx int, hosts, conns, nClients, steps int, restarts boo
 		ops []c07Op
 	}
 	results := make([]result, nClients)
+	var preparedUses int64
+	defer func() { r.Obs("uses_sent_as_prepare_execute", int(atomic.LoadInt64(&preparedUses))) }()
 	var wg sync.WaitGroup
 	start := make(chan struct{})
 	for ci, cl := range clients {
@@ -180,7 +183,22 @@ func c07History(c *Ctx, idx int, hosts, conns, nClients, steps int, restarts boo
 				var err error
 				switch op.Kind {
 				case "use":
-					err = cl.Send(stream, &message.Query{Query: "USE " + op.Use.Text, Options: &message.QueryOptions{Consistency: primitive.ConsistencyLevelOne}})
+					sent := false
+					if lr.Intn(4) == 0 && !cl.Version.SupportsResultMetadataId() {
+						// the same USE as a prepared statement: PREPARE "USE x", then EXECUTE of the returned id
+						if pf, perr := cl.Call(stream+20000, &message.Prepare{Query: "USE " + op.Use.Text}, 20*time.Second); perr == nil && pf != nil {
+							if fr, derr := rawcql.DecodeWith(cl.Comp, pf); derr == nil {
+								if pr, ok := fr.Body.Message.(*message.PreparedResult); ok {
+									err = cl.Send(stream, &message.Execute{QueryId: pr.PreparedQueryId, Options: &message.QueryOptions{Consistency: primitive.ConsistencyLevelOne}})
+									sent = true
+									atomic.AddInt64(&preparedUses, 1)
+								}
+							}
+						}
+					}
+					if !sent {
+						err = cl.Send(stream, &message.Query{Query: "USE " + op.Use.Text, Options: &message.QueryOptions{Consistency: primitive.ConsistencyLevelOne}})
+					}
 				default:
 					op.Tok = NewTok()
 					kind := map[string]ReqKind{"query": KQuery, "execute": KExecute, "batch": KBatch, "prepare": KPrepare}[op.Kind]
